@@ -15,7 +15,7 @@ import ast
 from ..core import walk_own, norm
 from ..report import Ob, Floor
 from ..abseval import Evaluator, Sym, Opaque
-from ..rules import twin, memo, plumb, scanner, gens, mergetable
+from ..rules import twin, memo, plumb, scanner, gens, mergetable, count
 from .. import exceptions
 
 ASS = "shexer.core.shexing.strategy.abstract_shexing_strategy:AbstractShexingStrategy."
@@ -177,6 +177,7 @@ def check(ctx, tier):
     obs += ctx.attempt(scanner.numeric_token_table, ctx, "D-j", default=[])
     obs += ctx.attempt(lambda c, cl: mergetable.invariants(c, cl, which=("coverage", "no-crash"))[0], ctx, "D-k", default=[])
     obs += ctx.attempt(lambda c, cl: scanner.rdflib_literal_datatype_source(c, cl)[0], ctx, "D-l", default=[])
+    obs += ctx.attempt(lambda c, cl: count.class_iteration_agreement(c, cl)[0], ctx, "D-m", default=[])
     exceptions.apply(obs)
     return {"obs": obs, "floors": [Floor("R-TABLE rows evaluated", rows, 20), Floor("memo sites", n_memo, 3)],
             "explanation": "Decision tables of the relaxation (?, * and probability 1 with the original figures kept), of the offered "
